@@ -39,7 +39,9 @@ class Gen:
         r = self.r
         if self.plain or not self.weird:
             return r.choice(["x", "abc", "A%", "hello world"])
-        pool = ["x", "abc", "it's", "a\\b", "%_", "", "é", "q\"q", "line\nbreak", "tab\t", "$1", "?", "a'b'c", "\\"]
+        # (quote characters next to multi-byte characters: a byte-wise rewrite of the escaper shows only there)
+        pool = ["x", "abc", "it's", "a\\b", "%_", "", "é", "q\"q", "line\nbreak", "tab\t", "$1", "?", "a'b'c", "\\",
+                "é'ü", "中\"文'", "\\é'"]
         return r.choice(pool)
 
     def value(self):
